@@ -50,10 +50,10 @@ CLAIMED = {
  "C16": ("proof", "Over the model of the library's dispatch (Model/Mixed.lean) for ALL operands: C16_int_promoted (+, - both orders and T/fixed equal the operation on fixed_t(t)), C16_int_exact (fixed*integer, fixed/integer exact or NaN for the whole range of "
          "all 8 integral types incl. uint64 >= 2^63), C16_float, C16_double (IEEE operation of the exact IEEE-754 model on double(a) and the operand in written order), C16_compound. These are largely definitional: WHICH overload the compiler selects is decided by the "
          "type-matrix correspondence (4 ops x 10 operand types x 2 orders x compound forms, reference forms ref_* evaluated by the library itself, bit-exact doubles).", "unfolding + C02/C03/C04 theorems; type-matrix correspondence decides dispatch"),
- "C07": ("proof", "One UB-freedom theorem per entry point over the UB-monad model, for EVERY argument of its domain (all int64 but INT64_MIN, every value of every integral type, shift counts in [INT_MIN,63]): + - * / and scalar forms, conversions, neg abs isnan ceil floor, shifts, &, "
-         "angle_to_radians, sin cos tan (all arguments incl. NaN), asin acos (both back-ends), sqrt_abacus, sin/cos/tan_angle for all integral types, sin/cos_angle_aprox for all int32 (table index in bounds). "
-         "PARTIAL: atan, atan2, hypot, std::sqrt back-end, sqrt_aprox, hypot_aprox, atan_index_aprox, float-argument conversions are NOT theorems (listed in C07_remaining); for them and for the binary itself the check relies on the "
-         "UBSan+ASan+_GLIBCXX_ASSERTIONS+float-cast-overflow leg on ~1.2M calls (NaN/extreme arguments, every entry point) agreeing with the model's verdict.", "per-entry-point isOk theorems (omega, kernel enumerations) + sanitizer leg"),
+ "C07": ("proof", "One UB-freedom theorem per entry point over the UB-monad model, for EVERY argument of its domain (all int64 but INT64_MIN, every value of every integral type, every float/double bit pattern, shift counts in [INT_MIN,63]): + - * / and scalar forms, "
+         "integral and floating conversions, neg abs isnan ceil floor, shifts, &, angle_to_radians, sin cos tan, asin acos, sqrt (both back-ends), hypot (both back-ends, every pair), atan, atan2, sin/cos/tan_angle (integral, fixed_t, float), "
+         "operators with a float operand, sin/cos_angle_aprox (all int32), sqrt_aprox, hypot_aprox, atan_index_aprox (std::lower_bound invariant by induction), atan_aprox. double-operand operators are pure IEEE operations of the model (no error value). C07_remaining = []. "
+         "The binary itself is tied by the UBSan+ASan+_GLIBCXX_ASSERTIONS+float-cast-overflow leg on ~1.2M calls (NaN/extreme arguments, every entry point) agreeing with the model's verdict.", "per-entry-point isOk theorems (omega, induction, kernel enumerations, IEEE rounding theory) + sanitizer leg"),
  "C08": ("proof", "Premises proved in Lean: C08_no_ub (UB-freedom theorems of C07: a UB-free call has one value for every conforming compiler and is a constant expression), C08_shl_cxx20 (C++17 value of signed << equals the C++20 value), abacus sqrt = floor sqrt for all inputs (C13). "
          "PARTIAL: the quantifier over compilers/levels/standards/evaluation time is outside Lean and is SAMPLED: value legs (quick: g++ c++17 -O2, clang++ c++20 -O2, sanitizer, abacus; thorough: 2 compilers x 4 levels x 3 standards x abacus) compared with the one model, "
          "and the constant-evaluation leg (350-4000 static_asserts derived from the model compiled under g++/clang++ x c++17+abacus/c++20/c++2b). C08_sqrt_algos: |abacus - std::sqrt| <= 1 for ALL v in [0, 2^48) (from C13_abacus_real and C13_std_acc).", "UB-freedom theorems + configuration matrix correspondence + constant-evaluation leg"),
